@@ -155,4 +155,10 @@ def add_validation(rep, idx):
                   "ValueError", loop_values=["err", "rty", "stall"])
     from .common import closed_refusals
     closed_refusals(rep, "C07.5", c, "add() refuses nothing but the documented cases (request-side options lock/cti/bte get defaults instead)")
+    # C07.11 a refused add() leaves the decoder as it was (D15, fixed)
+    from . import apirules
+    rep.require("C07.11", 1)
+    from .c19 import negative_slice_bounds
+    negative_slice_bounds(rep, idx, rule="C07.12", modules=["wishbone/bus.py"])
+    apirules.atomic(rep, "C07.11", idx, c.fi, verified=("MemoryMap.add_window",))
     glue.registry_and_window(rep, "C07.5", idx, fi, ("name", "addr", "sparse"))
